@@ -69,12 +69,16 @@ func (sw *shardWriter) close() error {
 // jb is a tiny JSON line builder.
 type jb struct{ b []byte }
 
-func (j *jb) reset()        { j.b = j.b[:0] }
-func (j *jb) raw(s string)  { j.b = append(j.b, s...) }
-func (j *jb) int(n int)     { j.b = strconv.AppendInt(j.b, int64(n), 10) }
-func (j *jb) comma()        { j.b = append(j.b, ',') }
-func (j *jb) key(k string)  { j.b = append(j.b, '"'); j.b = append(j.b, k...); j.b = append(j.b, '"', ':') }
-func (j *jb) str(s string)  { j.b = strconv.AppendQuote(j.b, s) }
+func (j *jb) reset()       { j.b = j.b[:0] }
+func (j *jb) raw(s string) { j.b = append(j.b, s...) }
+func (j *jb) int(n int)    { j.b = strconv.AppendInt(j.b, int64(n), 10) }
+func (j *jb) comma()       { j.b = append(j.b, ',') }
+func (j *jb) key(k string) {
+	j.b = append(j.b, '"')
+	j.b = append(j.b, k...)
+	j.b = append(j.b, '"', ':')
+}
+func (j *jb) str(s string) { j.b = strconv.AppendQuote(j.b, s) }
 func (j *jb) b01(v bool) {
 	if v {
 		j.b = append(j.b, '1')
@@ -145,4 +149,16 @@ func b2i(v bool) int {
 		return 1
 	}
 	return 0
+}
+
+// panicEvent replaces the event under construction by a record of the fact that a
+// call panicked: {"op":"panic","orig":<op>,"in":[...]} - every trace specification
+// turns it into a C10 failure; replay re-runs the original observer on the input.
+func (j *jb) panicEvent(orig string, data []byte) {
+	j.reset()
+	j.raw(`{"op":"panic","orig":`)
+	j.str(orig)
+	j.raw(`,"in":`)
+	j.bytes(data)
+	j.raw(`}`)
 }
